@@ -59,4 +59,4 @@ def run(ctx):
                 R.violation("TERM", path + "|range", "microseconds field %s can reach 1000000 or more" % us.lin, file=b["span"]["f"], line=b["span"]["l"], function=path)
         lib_panic.report(ctx, eng, "PANIC", entry=path)
     R.floor("TERM", 2)
-    R.floor("PANIC", 6)
+    R.floor("PANIC", 2)
